@@ -541,7 +541,8 @@ impl<C: ContentAddrStore> SealedState<C> {
             .keys()
             .map(|k| self.0.stakes.votes(my_epoch, *k))
             .sum();
-        if total_votes > present_votes / 2 * 3 {
+        // strictly more than two thirds of the voting power active in this epoch must have signed
+        if present_votes.saturating_mul(3) > total_votes.saturating_mul(2) {
             Some(ConfirmedState {
                 state: self.clone(),
                 cproof,
